@@ -200,9 +200,15 @@ async def run_codec(ctx) -> None:
                                 list(range(len(tfr))))
             if sorted(set(order)) != list(range(len(tfr))):
                 continue  # (a shrunk plan may have lost part of the set)
-            for ix in order:
+            merged = False
+            for n_ix, ix in enumerate(order):
                 hub.rx_line(ser, tfr[ix], 0.0)
                 await asyncio.sleep(0.02)
+                if n_ix == 0 and ver == "v2":
+                    # (classification only) the first fragment of the new schedule went into the complete set of the old one and the
+                    # mixture still inflates (typically the last fragment: only the checksum's tail changes) -- KF15
+                    ps = getattr(getattr(zone, "_schedule", None), "_payload_set", None)
+                    merged = bool(ps) and None not in ps and len(ps) == len(tfr) and len(ps) > 1
             try:
                 cur = zone.schedule
             except Exception as err:  # noqa
@@ -210,6 +216,8 @@ async def run_codec(ctx) -> None:
                 break
             if cur is not None and norm(cur) != norm(versions[ver][z]):
                 kind = "previous_schedule_kept" if norm(cur) in legal else "different_schedule"
+                if kind == "previous_schedule_kept" and merged:
+                    kind = "previous_schedule_kept:first_fragment_merged_into_old_set"
                 ctx.violate("C17", "reassembly", kind, f"zone {z}: after the complete set of reply packets of schedule {ver} (order {order}) "
                             f"the zone reports another schedule")
                 break
